@@ -161,6 +161,11 @@ def _task(t):
         mc = min_checked_for(stmts)
         ns = list(range(min_stop(stmts), (mx if mc is None else mc) + 1)) if "n" in use else [1]
         bs = [0, 1] if "b" in use else [0]
+        xs_ = xs
+        if mx > 8:
+            # long loops: a lattice of stops around the usual block sizes, two operand values
+            ns = sorted({0, 1, 3, 31, 32, 33, 63, 64, 65, mx - 1, mx} & set(range(0, mx + 1)))
+            xs_ = [0, 3]
         chk = has_checkstop(stmts)
         for explicit in (True, False):
             try:
@@ -181,7 +186,7 @@ def _task(t):
                                 "case": {"stmts": stmts, "vec": list(vec), "explicit": explicit, "p": p}}
                 viols[k]["count"] += 1
 
-            for vec in itertools.product(xs, xs, bs, ns):
+            for vec in itertools.product(xs_, xs_, bs, ns):
                 r = run_one(fo, fn, vec, p)
                 st["executions"] += 1
                 if "twin_error" in r:
@@ -267,7 +272,7 @@ def run(ctx):
     ctx.cov["traces_validated_against_impl"] = agg["executions"]
     ctx.cov["exhaustive"] = True
     ctx.cov["rule"] = ("variables: two integer secrets, a list of two, a nested list and an Array object (modified in place), one starting as the plain int 5 and one as the plain float 1.5 (assigned integer / fixed-point secrets inside blocks); program = statement list from the grammar assign | if/elif/else | while+breakif | for _range(secret "
-                       "stop, public max) (conditions x<y, x==1, b, ~b, b&(x<=y); loop maxima 2,3; nesting 1 quick / 2 "
+                       "stop, public max) (conditions x<y, x==1, b, ~b, b&(x<=y); loop maxima 2,3 and single long loops with maximum 70 (130 thorough) on a lattice of stops; nesting 1 quick / 2 "
                        "thorough), emitted with explicit ctx= and with local-variable context lookup; inputs = all "
                        "(x,y) in {0..3}^2 x b in {0,1} x stop in 0..max; transitions = constraints emitted; states = "
                        "distinct final (x,y) outcomes per worker summed")
